@@ -8,6 +8,9 @@ META_EXCLUDE.add('node_call_id')
 META_EXCLUDE.add('node_sock')
 META_EXCLUDE.add('node_without_result')
 META_EXCLUDE.add('success_channels')
+META_EXCLUDE.add('complete_channels')
+META_EXCLUDE.add('cause')
+META_EXCLUDE.add('effects')
 
 
 def load_event(s):
